@@ -244,6 +244,8 @@ class Executor(object):
 
     def set_field(self, st, obj, field, val):
         name, pt, arr = self.field_arr(st, obj.pt.args[0], field)
+        if val.pt.kind == 'opt' and pt.kind not in ('opt', 'cell') and val.pt.args[0] == pt:
+            val = self.unwrap_opt(st, val, None)
         val = self.coerce(val, pt, st)
         arr = st.heap[name]
         st.heap[name] = Store(arr, obj.t, val.t)
@@ -1006,20 +1008,28 @@ class Executor(object):
         if kind == 'for':
             elem = seq_elem_sv(self, st, itv, seq, i)
             self.assign(s.target, elem, st)
+        def apply_hints(tag):
+            for cl in (c.loop_hints.get(ordn, []) if c is not None else []):
+                st.locals['__i'] = st.locals.get(ivar, SV(TInt, IntC(0)))
+                try:
+                    t = self.ceval(cl.expr, st, self.entry, None, loop_entry=entry_loop)
+                except OutOfSubset:
+                    if tag == 'break':
+                        continue        # the hint mentions a local that this early exit never assigned
+                    raise
+                self.oblige(st, 'loop%d.%s' % (ordn, cl.label), t, cl, kind='hint', note='proof hint (proved, then assumed)')
+                self.assume(st, t)
         try:
             try:
                 self.exec_block(s.body, st)
             except _Continue:
                 pass
         except _Break:
+            apply_hints('break')
             return
         if kind == 'for':
             st.locals[ivar] = SV(TInt, Add(st.locals[ivar].t, IntC(1)))
-        for cl in (c.loop_hints.get(ordn, []) if c is not None else []):
-            st.locals['__i'] = st.locals.get(ivar, SV(TInt, IntC(0)))
-            t = self.ceval(cl.expr, st, self.entry, None, loop_entry=entry_loop)
-            self.oblige(st, 'loop%d.%s' % (ordn, cl.label), t, cl, kind='hint', note='proof hint (proved, then assumed)')
-            self.assume(st, t)
+        apply_hints('keep')
         check_inv(st, 'keep')
         check_frame_inv(st, 'keep')
         raise PathEnd()
